@@ -51,6 +51,7 @@ GATES = {
     "membership": ["member:inserted-present", "member:non-member-agrees-with-reference", "member:via-cfilter-message"],
     "collisions": ["collision:corpus-witness", "collision:fresh-witness", "gcs:delta-zero"],
     "spec-vectors": ["vector:bip158"],
+    "repeated-elements": ["gcs:element-list-with-repeats"],
     "header-chain": ["cfheaders:k=0", "cfheaders:k=1", "cfheaders:k>=2"],
     "bloom-classes": ["bloom:size=1", "bloom:size=36000", "bloom:nfuncs=1", "bloom:nfuncs=50", "bloom:tweak=0xffffffff", "bloom:member-present", "bloom:empty-item"],
 }
@@ -319,10 +320,15 @@ def _els_case(key, items):
 def post_encode_gcs(args, kwargs, pre, out):
     ctx = contracts.ctx()
     key, items = args[0], pre
-    if not _b(key) or len(key) != 16 or not _distinct_bytes(items):
+    if not _b(key) or len(key) != 16 or not (isinstance(items, (list, tuple)) and all(_b(i) for i in items)):
         return NotImplemented
-    exp = fl.gcs_encode(bytes(key), [bytes(i) for i in items])
     case = _els_case(key, items)
+    if not _distinct_bytes(items):
+        # BIP158 builds the filter from the SET of elements (its vector "Duplicate pushdata"): a script that occurs twice
+        # in a block counts once in N, hence in F = N*M and in every range value
+        ctx.count("gcs:element-list-with-repeats")
+        items = sorted(set(bytes(i) for i in items))
+    exp = fl.gcs_encode(bytes(key), [bytes(i) for i in items])
     _size_classes(ctx, len(items))
     vals = fl.hashed_set(bytes(key), [bytes(i) for i in items])
     dup = len(set(vals)) < len(vals)
@@ -826,7 +832,18 @@ def wl_filters(ctx, rng, idx, n):
             return
         key = rng.choice([bytes(16), b"\xff" * 16, bytes(range(16))]) if rng.random() < 0.15 else rng.getrandbits(128).to_bytes(16, "big")
         drive_filter(ctx, rng, key, element_set(rng, sz, with_empty=rng.random() < 0.2), 40 if quick else 200)
-    # committed witnesses: two elements of one set share a range value
+    # element LISTS in which a script occurs more than once (a block paying one script in two outputs): the filter is
+    # the filter of the set (decided by the encode_gcs contract)
+    from buidl import compactfilter as _cf
+
+    for sz in [1, 2, 3, 7, 40] + ([] if quick else [rng.randrange(1, 300) for _ in range(40)]):
+        els = sorted(element_set(rng, sz))
+        items = els + [rng.choice(els) for _ in range(rng.randrange(1, 4))]
+        rng.shuffle(items)
+        key = rng.getrandbits(128).to_bytes(16, "big")
+        e = outcome(_cf.encode_gcs, key, items)
+        if e[0] == "ok":
+            outcome(_cf.decode_gcs, key, e[1])
     with open(os.path.join(VERIF_ROOT, "corpus", "c18_collisions.json")) as fh:
         corpus = json.load(fh)["witnesses"]
     for i, w in enumerate(corpus):
